@@ -1469,6 +1469,8 @@ func (g Gateway) Count(ctx context.Context, in *hydrapb.CountRequest) (*hydrapb.
 	type SwampIdentifier struct {
 		IslandID  uint64
 		SwampName name.Name
+		// missing: the swamp does not exist; answered with IsExist = false at its place in the request order
+		missing *hydrapb.CountSwamp
 	}
 
 	var swamps []*SwampIdentifier
@@ -1485,11 +1487,11 @@ func (g Gateway) Count(ctx context.Context, in *hydrapb.CountRequest) (*hydrapb.
 			// so a missing swamp failed the whole request instead of being answered with IsExist = false)
 			if st, ok := status.FromError(err); ok && st.Code() == codes.FailedPrecondition {
 				// this is not an error, just a swamp that does not exist
-				response = append(response, &hydrapb.CountSwamp{
+				swamps = append(swamps, &SwampIdentifier{missing: &hydrapb.CountSwamp{
 					SwampName: swampIdentifier.GetSwampName(),
 					Count:     0,
 					IsExist:   false,
-				})
+				}})
 			} else {
 				// return with grpc error message
 				return nil, err
@@ -1505,8 +1507,13 @@ func (g Gateway) Count(ctx context.Context, in *hydrapb.CountRequest) (*hydrapb.
 
 	hydraInterface := g.ZeusInterface.GetHydra()
 
-	// iterating over only the existing swamps
+	// iterating over the swamps in request order
 	for _, swampIdentifier := range swamps {
+
+		if swampIdentifier.missing != nil {
+			response = append(response, swampIdentifier.missing)
+			continue
+		}
 
 		// summon the swamp
 		swampInterface, err := hydraInterface.SummonSwamp(ctx, swampIdentifier.IslandID, swampIdentifier.SwampName)
